@@ -170,7 +170,7 @@ theorem wrapper_injective (h : List Nat) (f1 f2 w : Nat)
 
 /-! ## js-tagged struct fields: the property accessor emitted for a `js:"…"` tag -/
 
-/-- **tag_key_spec** — for every tag that is valid UTF-8 (runes `rs`), whatever `unicode.IsLetter/IsNumber/IsPrint` say
+/-- **tag_key_spec** — for every tag that is valid UTF-8 (runes `rs`), whatever `unicode.IsLetter/IsDigit/IsPrint` say
     (provided non-printable runes are in the BMP: `\u%04X` prints more than four digits beyond it), the accessor emitted by
     `formatJSStructTagVal` — dot notation or bracket notation with a `template.JSEscapeString` literal — denotes the
     property whose name is the UTF-16 transcoding of the tag, i.e. exactly the name `$externalize(tag, $String)` yields
